@@ -287,3 +287,20 @@ func WithHelpers(p *Prog, fn *ssa.Function) []*ssa.Function {
 	}
 	return out
 }
+
+// ringScope: the methods of the ring plus the unexported functions of the package that only ring
+// methods call (slot helpers on *node): the code that may touch a slot's state.
+func ringScope(p *Prog) []*ssa.Function {
+	ring := p.Funcs("rueidis.(*ring).")
+	al := map[string]bool{}
+	for _, f := range ring {
+		al[FuncName(TopFunc(f))] = true
+	}
+	out := append([]*ssa.Function{}, ring...)
+	for _, f := range p.Funcs("rueidis.(*node).") {
+		if f.Parent() == nil && helperOnlyCalledFrom(p, f, al, 2) {
+			out = append(out, f)
+		}
+	}
+	return out
+}
